@@ -21,6 +21,7 @@ namespace vos {
 namespace {
 
 thread_local int tlBypass = 0;
+std::atomic<unsigned long> gProgress{0}; // bumped by every interposed call of any thread (hang detection)
 
 struct Spin
 {
@@ -139,6 +140,7 @@ bool takeDirectivePoll(pollfd *fds, nfds_t n, Directive &out)
 int nextCall(char const *sys)
 {
   auto &s = S();
+  gProgress.fetch_add(1, std::memory_order_relaxed);
   if(s.quiet) return 0;
   long idx = s.calls++;
   ++s.counts[sys];
@@ -381,8 +383,14 @@ int poll(struct pollfd *fds, nfds_t n, int timeout)
   // a moment (real), then declare a hang rather than blocking the check forever
   int hw;
   { Guard g(s.mtx); hw = s.hangWaitMs; }
-  r = fn(fds, n, hw);
-  if(r != 0) return finish(r, errno, "waited");
+  // "nothing happens" means: nothing became ready AND no other thread of the scenario issued any
+  // system call during a whole window (a slow peer thread on a loaded machine is not a hang)
+  for(int window = 0; window < 40; ++window) {
+    unsigned long before = gProgress.load(std::memory_order_relaxed);
+    r = fn(fds, n, hw);
+    if(r != 0) return finish(r, errno, "waited");
+    if(gProgress.load(std::memory_order_relaxed) == before) break;
+  }
   bool ex;
   { Guard g(s.mtx); ex = s.hangExits; }
   if(ex) { std::printf("-> hang unlimited poll with nothing ready\n"); std::fflush(stdout); _exit(97); }
